@@ -538,17 +538,19 @@ func run(r *hk.Run) {
 					}
 					origins[cl.Spec.Name] = o
 				}
-				timeout := 8 * time.Second
+				timeout := 30 * time.Second
 				if slowCell(cl) {
 					timeout = 1500 * time.Millisecond
 				}
 				var res cellResult
+				t0 := time.Now()
 				for attempt := 0; attempt < 3; attempt++ {
 					res = runCell(p, o, cl, timeout)
 					if !res.Unstable {
 						break
 					}
 				}
+				res.Dur = time.Since(t0)
 				results[i] = res
 			}
 		}(w)
@@ -590,6 +592,10 @@ func run(r *hk.Run) {
 		}
 		if res.Unstable {
 			r.Count("unstable-error-after-3-attempts")
+		}
+		if res.Dur > 10*time.Second {
+			r.Count("cell-took-over-10s")
+			r.Notes = append(r.Notes, fmt.Sprintf("slow cell %.0fs: %s on %s", res.Dur.Seconds(), cl.Shape, cl.Spec.Name))
 		}
 		if res.Retried > 0 {
 			r.Count("retry-hellos-collapsed")
